@@ -15,7 +15,8 @@ EXPLANATION = ("Three-way agreement decided from the source on every run: for 43
                "each creator declares pack_size = check position + the check block it actually writes + 64; each creator ends "
                "with the header/tail mirror. A symmetric change of writer and reader (invisible to any round-trip test) changes two "
                "of the three. Not decided: that an independent decoder recovers the logical content; that a corpus reads."
-               " (R7) plain value store: the declared data size equals what write_data emits (the remembered key changes only where the accumulator advances); (R8) cluster pointers are tail offsets (= C01-R6).")
+               " (R7) plain value store: the declared data size equals what write_data emits (the remembered key changes only where the accumulator advances); (R8) cluster pointers are tail offsets (= C01-R6)."
+               " Added later: (R9) counts are compared with their field's maximum before they are narrowed; (R10) positions stored in a pack written at a recorded origin are pack-relative; (R11) offset widths come from the total (= C02-R8); (R12) column widths are chosen on final positions (= C15-R1).")
 ASSUMPTIONS = ["the reference table was written from the pinned sources (DESIGN.md Appendix A)", "zerocopy/byteorder LE/BE helpers behave as documented",
                "rustc HIR/MIR construction and trait resolution"]
 
